@@ -92,6 +92,11 @@ func (s *Service) Proposal(ctx context.Context,
 				return
 			}
 			proposal := proposalResponse.Data
+			if proposal == nil {
+				log.Warn().Msg("Obtained nil beacon block proposal")
+
+				return
+			}
 			log.Trace().Dur("elapsed", time.Since(started)).Msg("Obtained beacon block proposal")
 
 			ch <- proposal
